@@ -31,7 +31,7 @@ ASSUMPTIONS = [
 
 
 QUICK_BUDGET = {"cases": 112, "deadline_s": 170, "case_timeout_s": 150, "floors": {"drains": 134, "convergence_checked": 123, "perturbations": 75, "jobs_executed": 400}}
-THOROUGH_FACTOR = 26  # thorough = the same workload with 26x the cases (floors scale along)
+THOROUGH_FACTOR = 18  # thorough = the same workload with 18x the cases (floors scale along)
 
 
 def budget(tier):
